@@ -142,6 +142,13 @@ def _decide(res, u, v, m, key, svars, sub):
     if v != "sat":
         return
     shift = [model_value(m, x) for x in svars] if svars else list(u[5]) if len(u) > 5 else [0, 0, 0]
+    if u[0] == "api":
+        # the object was built by the unpatched Phonopy.init_mesh on concrete input: the query is a ground evaluation of the real
+        # result, there is nothing further to replay
+        res.violations.append({"key": key, "what": "Phonopy.init_mesh(mesh=%s, shift=%s, is_gamma_center=%s (a length-specified mesh is documented to be Gamma-centred), is_time_reversal=%s) on crystal %s: %s" %
+                               (list(u[2]), list(shift), u[3], u[4], u[1], {"grid_offset": "the sampled grid is not the requested one", "image": "a grid point is not a symmetry image of its representative"}.get(sub, sub)),
+                               "replay": {"unit": [str(x) for x in u], "shift": list(shift)}})
+        return
     ok, what = replay(u, shift, sub)
     (res.violations if ok else res.unconfirmed).append({"key": key, "what": what, "replay": {"unit": [str(x) for x in u], "shift": shift}})
 
